@@ -24,7 +24,7 @@ ASSUMPTIONS = [
 ]
 
 BOUNDS = {
-    "quick": [dict(N=1, P=2, O=2, E=2, menu="full", orders="all"), dict(N=2, P=2, O=2, E=2, menu="full", orders="all"), dict(N=3, P=2, O=2, E=2, menu="quick", orders="rev", slice=10)],
+    "quick": [dict(N=1, P=2, O=2, E=2, menu="full", orders="all"), dict(N=2, P=2, O=2, E=2, menu="full", orders="all"), dict(N=3, P=2, O=2, E=2, menu="quick", orders="rev", slice=16)],
     "thorough": [
         dict(N=1, P=2, O=2, E=2, menu="full", orders="all"),
         dict(N=2, P=2, O=2, E=2, menu="full", orders="all"),
@@ -180,13 +180,21 @@ def run_shard(shard):
             # quick tier at N=3: every shape, a rotating 1/slice of its assignments (all slices = thorough tier)
             if sl and (ai + idx + seed) % sl != 0:
                 continue
-            for omit, select in _omissions(shape, ext_src):
-                for order in ords:
+            none_nodes = [j for j, (_, n_out) in enumerate(shape) if n_out == 1 and any(out_name(j, 0) in ps for ps, _ in shape)]
+            variants = [(omit, select, order, False) for omit, select in _omissions(shape, ext_src) for order in ords]
+            if none_nodes:
+                variants.append((frozenset(), None, ords[0], True))  # consumed single outputs carry the value None
+            for omit, select, order, none_variant in variants:
+                if True:
                     for runner in ("sync", "async"):
                         prog, provided = dag_program(shape, ext_src, out_default, order, is_async=(runner == "async"))
+                        if none_variant:
+                            for j in none_nodes:
+                                prog["nodes"][j]["behav"] = {"const": None}
+                            acc.counters["runs_with_None_valued_outputs"] += 1
                         prov = {k: v for k, v in provided.items() if k not in omit}
                         acc.evaluations += 1
-                        key = (tuple(shape), tuple(sorted((k, "".join(sorted(v))) for k, v in ext_src.items())), tuple(sorted(out_default)), order, runner, tuple(sorted(omit)))
+                        key = (tuple(shape), tuple(sorted((k, "".join(sorted(v))) for k, v in ext_src.items())), tuple(sorted(out_default)), order, runner, tuple(sorted(omit)), none_variant)
                         if b["N"] >= 2 or any(v != frozenset("P") for v in ext_src.values()):
                             acc.key(key)
                         vs = check_program(prog, prov, select, runner)
